@@ -135,6 +135,10 @@ def run_shard(shard, out_base):
         for pos, i in enumerate(seq):
             rec.call(i, pos)
             mon.distinct((shard["order"], pos, i))
+            if pos == 60:
+                # registries that were loaded lazily by the first calls get their barrier and fingerprint now
+                if watch.install(registry):
+                    fp0 = {**watch.fingerprint(registry), **fp0}
     elif shard["kind"] == "pairs":
         groups: dict = {}
         for i, d in enumerate(p):
@@ -162,8 +166,13 @@ def run_shard(shard, out_base):
         mon.viol("registry_mutated_after_import:" + ev["mutator"], {"event": ev, "descriptor": p[ev["call"]] if isinstance(ev["call"], int) else None}, "no mutation", ev["mutator"])
     mon.tally("barrier_events", len(watch.EVENTS))
     fp1 = watch.fingerprint(registry)
-    if fp1 != fp0:
-        changed = sorted(k for k in set(fp0) | set(fp1) if fp0.get(k) != fp1.get(k))
+    # a registry that was first loaded / derived during the history (lazy loading) is not a modification:
+    # compare the registries that existed at both times
+    common = set(fp0) & set(fp1)
+    if sorted(set(fp1) - set(fp0)):
+        mon.tally("registries_loaded_lazily_during_history", len(set(fp1) - set(fp0)))
+    if any(fp0[k] != fp1[k] for k in common):
+        changed = sorted(k for k in common if fp0.get(k) != fp1.get(k))
         mon.viol("registry_fingerprint_changed", {"registries": changed, "history": shard["_name"]}, "unchanged", changed)
     if watch.files_fingerprint(env.PKG) != files0:
         mon.viol("bundled_files_changed", {"history": shard["_name"]}, files0, "changed")
